@@ -55,6 +55,19 @@ def cases(tier, rng):
         out.append(("(rename-rule %d %s)" % (rng.choice([0, 1, 12]), rrule(rng)), "rule"))
         ts = [atom(rng.choice(["p", "go"]))] + [rterm(rng, 2) for _ in range(rng.randint(0, 4))]
         out.append(("(make-query (%s))" % " ".join(ts), "query"))
+    # the small accessors of the API on the same random goals: Operator::len / get_subgoal at every index (one past the end: panic),
+    # Goal::get_ground_term at every argument index under a few substitution sets
+    for _ in range(150 if tier == "quick" else 3000):
+        g = rgoal(rng, 2)
+        pg = parse(g)
+        if pg[0] == "op":
+            out.append(("(op-len %s)" % g, "accessor"))
+            for idx in range(len(pg) - 1): out.append(("(op-subgoal %d %s)" % (idx, g), "accessor"))
+        elif pg[0] == "call":
+            sset = rng.choice(["(ss)", ss([None, atom("a")]), ss([None, var(2, "$Y"), atom("b")]), ss([None, None, None, None, None, None, None, None, None, atom("z")])])
+            for idx in range(len(pg[1])): out.append(("(goal-ground-term %d %s %s)" % (idx, g, sset), "accessor"))
+        else:
+            out.append(("(op-len %s)" % g, "accessor")); out.append(("(goal-ground-term 0 %s (ss))" % g, "accessor"))
     # beyond the small shapes: clauses with 17-40 distinct variables (each occurring 1-3 times) in wide heads and long bodies,
     # counters beyond 2^16 / 2^32, predicates with 5-12 clauses fetched at every index
     def wide_rule(rng, nv):
@@ -179,7 +192,7 @@ def relations(cases, impl, model):
             except Exception:
                 pass
             continue
-        if tag in ("malformed",): continue
+        if tag in ("malformed", "accessor"): continue
         c = parse(case)
         try: r = parse(res)
         except Exception: r = None
